@@ -267,6 +267,23 @@ func apply(op Op, hs []*handle) (*handle, string) {
 			nm[k] = v
 		}
 		return &handle{m: res.(value.Map), model: nm, how: "plus", depth: max(h.depth, h2.depth), wraps: h.wraps + h2.wraps}, ""
+	case "plusFresh":
+		// merge with a small map whose key is new: always disjoint, so that chains of merges
+		// and several merges with the same left operand are frequent
+		k, v := fmt.Sprintf("z%d", op.N), op.Vals[0]
+		res, err := fn("a+b", "a", "b").Eval(h.m, listMapOf([]string{k}, []int{v}))
+		if _, exists := h.model[k]; exists {
+			if err == nil {
+				return nil, fmt.Sprintf("merge (+) of %s with a map holding the existing key %s succeeds", show(h.model), k)
+			}
+			return nil, ""
+		}
+		if err != nil {
+			return nil, fmt.Sprintf("%s + {%s:%d} fails: %v", show(h.model), k, v, err)
+		}
+		nm := copyModel(h.model)
+		nm[k] = ref.Int(v)
+		return &handle{m: res.(value.Map), model: nm, how: "plusFresh", depth: h.depth, wraps: h.wraps + 1}, ""
 	case "replace":
 		// the replacement map is another handle: its keys lie inside and outside of the original key set
 		res, err := fn("m.replace(x->r)", "m", "r").Eval(h.m, h2.m)
@@ -670,11 +687,17 @@ func TestPropC13(t *testing.T) {
 				op.N = rapid.IntRange(0, 3).Draw(t, "n")
 				op.Big = rapid.IntRange(0, 7).Draw(t, "big") == 0 && op.Kind != "reflection" && op.Kind != "binDescr"
 			} else {
-				op.Kind = []string{"put", "put", "plus", "plus", "replace", "replace", "replace", "replaceChain", "replaceChain", "eval", "map", "accept", "combine", "put"}[k-6]
+				op.Kind = []string{"put", "plusFresh", "plus", "plus", "replace", "replace", "plusFresh", "replaceChain", "replaceChain", "eval", "map", "accept", "combine", "put"}[k-6]
 				op.H = rapid.IntRange(0, 5).Draw(t, "h")
+				if i > 0 && rapid.IntRange(0, 2).Draw(t, "branch") == 0 {
+					op.H = c.Ops[i-1].H // derive again from the operand of the previous step
+				}
 				op.H2 = rapid.IntRange(0, 5).Draw(t, "h2")
 				op.Keys, op.Vals = genKeys(t, rapid.IntRange(1, 3).Draw(t, "nkeys"))
 				op.N = rapid.IntRange(1, 13).Draw(t, "chain")
+				if op.Kind == "plusFresh" {
+					op.N = i
+				}
 			}
 			c.Ops = append(c.Ops, op)
 		}
